@@ -436,7 +436,19 @@ func c08Catalog() []c08Entry {
 			g.fillGadget(&ct.Value[1])
 			return ct
 		}),
-		entryOf("rlwe.Parameters", func(g *c08Gen) *rlwe.Parameters { p := g.params; return &p }),
+		entryOf("rlwe.Parameters", func(g *c08Gen) *rlwe.Parameters {
+			if g.ch.Chance("noiseless-parameters", 1, 4) {
+				// the explicitly constructed noiseless instance (error distribution of standard deviation zero)
+				p, err := rlwe.NewParameters(g.spec.LogN, g.params.Q(), g.params.P(), ring.Ternary{H: 1 + g.ch.Draw("np-H", 8)}, ring.DiscreteGaussian{Sigma: 0, Bound: 0}, ring.Standard, rlwe.NewScale(1), true)
+				// (the constructor returns the parameters together with a warning about the zero deviation)
+				if err == nil || p.RingQ() != nil {
+					g.ctx.Count("probe.noiseless-parameters", 1)
+					return &p
+				}
+			}
+			p := g.params
+			return &p
+		}),
 		entryOf("bgv.Parameters", func(g *c08Gen) *bgv.Parameters {
 			p, err := bgv.NewParametersFromLiteral(bgv.ParametersLiteral{LogN: g.spec.LogN, Q: g.params.Q(), P: g.params.P(), PlaintextModulus: 0x101})
 			if err != nil {
